@@ -9,7 +9,7 @@ Print Assumptions C18_spec_ok_on_model.
 Check (C18_spec_ok_serve_iff : forall entries steps o,
   spec_ok (CServe entries steps) o = true <->
   wf_case (CServe entries steps) = true /\
-  o = OServe (map (spec_sout (spec_allowlist (map snd entries))) steps)).
+  o = OServe (map (spec_sout (spec_allowlist_s (map snd entries))) steps)).
 Print Assumptions C18_spec_ok_serve_iff.
 Check (C18_spec_ok_entry_sound : forall e intent peers o,
   spec_ok (CEntry e intent peers) o = true ->
@@ -32,6 +32,13 @@ Check (C18_none_allows_all : forall peer target render_out,
   respond (allowed None peer) target render_out =
     (200, if bytes_eqb (req_path target) health then ok_body else render_out)).
 Print Assumptions C18_none_allows_all.
+Check (C18_other_family_never_matches : forall a p peer,
+  same_family a peer = false -> contains (a, p) peer = false).
+Print Assumptions C18_other_family_never_matches.
+Check (C18_only_other_family_listed_forbidden : forall nets peer target render_out,
+  forallb (fun n => negb (same_family (fst n) peer)) nets = true ->
+  respond (allowed (Some nets) peer) target render_out = (403, [])).
+Print Assumptions C18_only_other_family_listed_forbidden.
 Check (C18_cidr_edges : forall a p peer,
   wf_net (a, p) = true -> wf_ip peer = true ->
   (contains (a, p) peer = true <->
@@ -81,11 +88,19 @@ Print Assumptions C18_paths.
 Check (C18_connections_independent : forall evs s,
   st_allow (fst (run s evs)) = st_allow s /\ st_listening (fst (run s evs)) = st_listening s).
 Print Assumptions C18_connections_independent.
-Check (C18_served_per_spec : forall es r0,
+Check (C18_served_per_spec : forall entries r0,
+  forallb entry_ok entries = true ->
+  exists nets, parse_all true (map fst entries) = Some nets /\
+    forall evs peer target, wf_ip peer = true ->
+      let s1 := fst (run (init_state (allowlist_of nets) r0) evs) in
+      snd (step (fst (step s1 (Accept peer))) (Conn (st_next s1) (EvRequest target))) =
+        Some (spec_respond (spec_allowlist_s (map snd entries)) peer target (st_render s1))).
+Print Assumptions C18_served_per_spec.
+Check (C18_served_per_spec_v4 : forall es r0,
   forallb wf_entry4 es = true ->
   exists nets, parse_all true (map print_entry4 es) = Some nets /\
     forall evs peer target, wf_ip peer = true ->
       let s1 := fst (run (init_state (allowlist_of nets) r0) evs) in
       snd (step (fst (step s1 (Accept peer))) (Conn (st_next s1) (EvRequest target))) =
         Some (spec_respond (spec_allowlist es) peer target (st_render s1))).
-Print Assumptions C18_served_per_spec.
+Print Assumptions C18_served_per_spec_v4.
